@@ -38,7 +38,7 @@ def mutate_containers(cfg):
 
 
 def compare(ast, sm, schema, text):
-    ref = refload.ref_load(ast, {loadcheck.MAIN: text}, loadcheck.MAIN, sm=sm)
+    ref = refload.ref_load(ast, {loadcheck.MAIN: text}, loadcheck.MAIN, sm=sm, pin=True)
     out = []
     if ref.kind != "accept":
         return ref, None, out
@@ -51,7 +51,8 @@ def compare(ast, sm, schema, text):
         out.append(("attribute-set-mismatch", p))
     diff = digest.first_diff(ref.tree, d1)
     if diff:
-        out.append((classify(diff), "expected-vs-got at %s" % diff))
+        tag = ":pinned-resolution-" + "-".join(sorted(set(ref.pinned))) if ref.pinned else ""
+        out.append((classify(diff) + tag, "expected-vs-got at %s" % diff))
     # aliasing: mutate everything reachable, load again
     mutate_containers(got[1])
     again = loadcheck.real_load(schema, text)
